@@ -5,8 +5,10 @@ import WP.Props.Solvency.Step
   Loop invariant (`SolvLoop`), for constants `Kin`, `Kout` fixed by the state before the swap:
      Kin  + protocol fee so far + Σ pending(in)  + Σ value(in)            ≤ input taken so far
      Kout +                        Σ pending(out) + Σ value(out) + output paid so far ≤ 0
+  and, for the no-free-lunch clause, the same without fees (Vin, Vout = Σ value before the swap):
+     Σ value(in)  ≤ Vin + input taken so far          Σ value(out) + output paid so far ≤ Vout
   With Kin = (protocol fees owed + fees owed − vault) of the input token before the swap (and the same
-  for the output token) these say: whatever the swap has taken so far covers everything it has added
+  for the output token) the first two say: whatever the swap has taken so far covers everything it has added
   to the claims on the input vault, and what it has paid out was covered by the shrinkage of the
   claims on the output vault.
 -/
@@ -20,21 +22,23 @@ def inSoFar (c : SwapCtx) (amount : Nat) (s : SwapSt) : ℚ :=
 def outSoFar (c : SwapCtx) (amount : Nat) (s : SwapSt) : ℚ :=
   if c.isInput then (s.calculated : ℚ) else (amount : ℚ) - (s.remaining : ℚ)
 
-structure SolvLoop (c : SwapCtx) (ps : List (Nat × PositionD)) (amount : Nat) (Kin Kout : ℚ) (s : SwapSt) : Prop where
+structure SolvLoop (c : SwapCtx) (ps : List (Nat × PositionD)) (amount : Nat) (Kin Kout Vin Vout : ℚ) (s : SwapSt) : Prop where
   wf : TicksWF s.ticks
   fg : s.fgIn < TWO128
   rem : s.remaining ≤ amount
   inn : Kin + (s.protoFee : ℚ) + sumQ (pendQ c.aToB s.ticks s.tick s.fgIn) ps + sumQ (val c.aToB s.price) ps ≤ inSoFar c amount s
   out : Kout + sumQ (pendQ (!c.aToB) s.ticks s.tick (globOther c)) ps + sumQ (val (!c.aToB) s.price) ps + outSoFar c amount s ≤ 0
+  vin : sumQ (val c.aToB s.price) ps ≤ Vin + inSoFar c amount s
+  vout : sumQ (val (!c.aToB) s.price) ps + outSoFar c amount s ≤ Vout
 
 theorem min_price_pos : 0 < MIN_SQRT_PRICE_X64 := by decide
 
 /-- one iteration keeps the solvency invariant of the loop -/
-theorem solv_step (c : SwapCtx) (ps : List (Nat × PositionD)) (p0 amount : Nat) (Kin Kout : ℚ) (s s' : SwapSt) (nai : Nat) (nti : Int)
+theorem solv_step (c : SwapCtx) (ps : List (Nat × PositionD)) (p0 amount : Nat) (Kin Kout Vin Vout : ℚ) (s s' : SwapSt) (nai : Nat) (nti : Int)
     (ok : CtxOK c) (hp : c.protoRate ≤ PROTOCOL_FEE_RATE_MUL_VALUE) (hGo : globOther c < TWO128)
     (P : Path c ps p0 s) (A : Aim c s nai nti) (sh : Shape c s s' nti) (P' : Path c ps p0 s')
     (hstep : swapStep c s nai nti (sp nti) (if c.aToB then max c.limit (sp nti) else min c.limit (sp nti)) = .ok s')
-    (q : SolvLoop c ps amount Kin Kout s) : SolvLoop c ps amount Kin Kout s' := by
+    (q : SolvLoop c ps amount Kin Kout Vin Vout s) : SolvLoop c ps amount Kin Kout Vin Vout s' := by
   obtain ⟨sc, hsc, hamt, hfs, hpf, hfg', hprice⟩ := swapStep_all c s s' nai nti _ _ hstep
   obtain ⟨wfS, hgeo⟩ := step_geom c ps p0 s nai nti ok P A sc hsc
   obtain ⟨d, delta, e1, e2, e3, e4⟩ := fees_split sc.feeAmount c.protoRate s.liq s.protoFee s.fgIn hp q.fg
@@ -109,18 +113,23 @@ theorem solv_step (c : SwapCtx) (ps : List (Nat × PositionD)) (p0 amount : Nat)
     · rw [if_neg hi] at hamt; omega
   have qi := q.inn
   have qo := q.out
+  have qvi := q.vin
+  have qvo := q.vout
+  have hfee0 : (0 : ℚ) ≤ (sc.feeAmount : ℚ) := by positivity
   exact
     { wf := wf', fg := by rw [hd]; exact C07.wadd_lt _ _, rem := Nat.le_trans hrem q.rem,
       inn := by rw [hio.1, hprice]; linarith,
-      out := by rw [hio.2, hprice]; linarith }
+      out := by rw [hio.2, hprice]; linarith,
+      vin := by rw [hio.1, hprice]; linarith,
+      vout := by rw [hio.2, hprice]; linarith }
 
 /-- the whole loop keeps it -/
-theorem solv_loop (c : SwapCtx) (ps : List (Nat × PositionD)) (p0 amount : Nat) (Kin Kout : ℚ) (ok : CtxOK c)
+theorem solv_loop (c : SwapCtx) (ps : List (Nat × PositionD)) (p0 amount : Nat) (Kin Kout Vin Vout : ℚ) (ok : CtxOK c)
     (hp : c.protoRate ≤ PROTOCOL_FEE_RATE_MUL_VALUE) (hGo : globOther c < TWO128)
-    (fuel : Nat) (s s' : SwapSt) (P : Path c ps p0 s) (q : SolvLoop c ps amount Kin Kout s)
-    (h : swapLoop c fuel s none = .ok s') : Path c ps p0 s' ∧ SolvLoop c ps amount Kin Kout s' :=
-  loop_path_step c ps p0 ok (SolvLoop c ps amount Kin Kout)
-    (fun a b nai nti Pa A sh Pb hst qa => solv_step c ps p0 amount Kin Kout a b nai nti ok hp hGo Pa A sh Pb hst qa)
+    (fuel : Nat) (s s' : SwapSt) (P : Path c ps p0 s) (q : SolvLoop c ps amount Kin Kout Vin Vout s)
+    (h : swapLoop c fuel s none = .ok s') : Path c ps p0 s' ∧ SolvLoop c ps amount Kin Kout Vin Vout s' :=
+  loop_path_step c ps p0 ok (SolvLoop c ps amount Kin Kout Vin Vout)
+    (fun a b nai nti Pa A sh Pb hst qa => solv_step c ps p0 amount Kin Kout Vin Vout a b nai nti ok hp hGo Pa A sh Pb hst qa)
     fuel s none s' P q (fun _ _ _ _ he => by cases he) h
 
 end WP.Solv
